@@ -40,6 +40,10 @@ var vC03Catalogue = []vDelimPattern{
 	/*22*/ {toks: []vTok{vL("/"), vStarTok, vL("-"), vN("a"), vL("--"), vN("b")}, lens: []int{5, 6, 7}},
 	/*23*/ {toks: []vTok{vL("/"), vPlusTok, vL("/x/y/"), vStarTok}, lens: []int{6, 7, 8}},
 	/*24*/ {toks: []vTok{vL("/"), vStarTok, vL(".a.b")}, lens: []int{5, 6, 7}},
+	// a greedy parameter followed by a multi-byte literal that occurs again after another parameter
+	/*25*/ {toks: []vTok{vL("/"), vStarTok, vL("/ab/"), vN("k"), vL("/ab")}, lens: []int{9, 10, 11}},
+	/*26*/ {toks: []vTok{vL("/f/"), vPlusTok, vL("-me-"), vN("k"), vL("-me-"), vO("z")}, lens: []int{13, 14}},
+	/*27*/ {toks: []vTok{vL("/"), vStarTok, vL("/to/"), vN("k"), vL("/to/end")}, lens: []int{13, 14}},
 }
 
 func (p *vDelimPattern) text() string {
@@ -69,6 +73,12 @@ func vCountConcrete(s, d string) int {
 		}
 	}
 	return n
+}
+
+// vPctEncode renders one (possibly symbolic) byte as %XX with upper-case hex digits.
+func vPctEncode(b byte) string {
+	hex := func(n byte) byte { return n + '0' + byte(vB2I(n > 9))*7 }
+	return string([]byte{'%', hex(b >> 4), hex(b & 15)})
 }
 
 func vTrimRightSlash(s string) string {
@@ -180,7 +190,15 @@ func VH_C03_complete(caseID int) {
 	// 2-byte request "/x" lives in the wrong lookup bucket (W1)
 	vKnown("C03-K1-short-request-bucket", len(path) < 3)
 
-	fctx := vDo(app, "GET", path)
+	wire := path
+	if cfg.unescape {
+		// the client may percent-encode one byte (never the leading slash)
+		if pos := vChoice("encpos", len(path)); pos > 0 {
+			wire = path[:pos] + vPctEncode(path[pos]) + path[pos+1:]
+			vReach("encoded")
+		}
+	}
+	fctx := vDo(app, "GET", wire)
 	_ = fctx
 	vAssert(ran, "matches")
 	if !ran {
